@@ -1,12 +1,267 @@
-import MuduoVerif.Model.Poller
+import MuduoVerif.Proofs.PollerDispatch
 /-!
 # C09 — the loop calls exactly the ready, subscribed channels; same under epoll and poll
-(first obligations; the refinement theorems follow)
+
+Property theorems only (lemmas: `Proofs/PollerReach.lean` — decomposition of every transition into
+operations, frame moves and guarded callback emissions; `PollerOps.lean` — the effect of an operation
+whatever the back-end; `PollerPoll.lean`, `PollerEpoll.lean` — the two back-end invariants;
+`PollerTrace.lean` — trace invariants; `PollerSim.lean` — the two back-ends in lock step;
+`PollerDispatch.lean` — one iteration).
+
+Quantification: `ins : List In` is an arbitrary history of `enableReading/disableReading/enableWriting/
+disableWriting/disableAll/remove/recreate` on any channel (any `Nat` id), operations scripted to run
+inside any callback of any channel (`In.hook`), and loop iterations with arbitrary readiness input.
+The documented preconditions (`remove()` only when registered, without interest and — during dispatch —
+only of the current or an inactive channel; a `Channel` object is destroyed only when unregistered and
+outside the dispatch; one channel per descriptor) are the model's guards `removeOk`/`recreateOk`: a
+request outside them is rejected (`Ev.reject`) and changes nothing, so the histories are unconstrained.
+
+Finding F21 (known_findings/C09.json): the first update of an unregistered channel that carries no
+interest registers the descriptor with an empty mask.  The ghost flag `State.blind` records that this
+happened; the `_partial` theorems assume it did not, `refine_full_false`, `no_abort_poll_false`,
+`idle_blocks_false` are the negation witnesses of the full statements.
 -/
 namespace MuduoVerif.C09
 open MuduoVerif.Poller MuduoVerif.Gen.Poller
 
+abbrev reach (be : Backend) (ins : List In) : State := run (init be) ins
+
+/-! ## refinement: what the kernel is asked to watch -/
+
+/-- the full-strength statement: under either back-end, after every history, the kernel watches
+exactly `{fd ↦ events | channel registered ∧ events ≠ 0}` -/
+def refine_full : Prop :=
+  ∀ (be : Backend) (ins : List In) (fd : Int) (mask : Nat),
+    watched (reach be ins) fd mask ↔ specWatched (reach be ins) fd mask
+
+/-- F21: `disableAll()` on a fresh channel makes either back-end watch the descriptor with an empty mask -/
+theorem refine_full_false : ¬ refine_full := by
+  intro h
+  have h1 := (h .poll [.op 2 .disableAll] 2 0).1 (by decide)
+  obtain ⟨_, _, _, _, h0⟩ := h1
+  exact h0 rfl
+
+theorem refine_epoll_false :
+    ¬ ∀ (ins : List In) (fd : Int) (mask : Nat),
+      watched (reach .epoll ins) fd mask ↔ specWatched (reach .epoll ins) fd mask := by
+  intro h
+  have h1 := (h [.op 2 .disableAll] 2 0).1 (by decide)
+  obtain ⟨_, _, _, _, h0⟩ := h1
+  exact h0 rfl
+
+/-- **refine_poll**: for every history in which no channel's first update was without interest, the
+non-negative entries of `pollfds_` are exactly the specification map -/
+theorem refine_poll_partial (ins : List In) (hb : (reach .poll ins).blind = false) (fd : Int) (mask : Nat) :
+    watched (reach .poll ins) fd mask ↔ specWatched (reach .poll ins) fd mask :=
+  pollStruct_refines (pollGood_run ins).1 ((pollGood_run ins).2 hb).2 fd mask
+
+/-- **refine_epoll**: for every such history the kernel's epoll interest list, as maintained by the
+`EPOLL_CTL_ADD/MOD/DEL` calls, is exactly the specification map -/
+theorem refine_epoll_partial (ins : List In) (hb : (reach .epoll ins).blind = false) (fd : Int) (mask : Nat) :
+    watched (reach .epoll ins) fd mask ↔ specWatched (reach .epoll ins) fd mask :=
+  epStruct_refines (epGood_run ins).1 (epGood_run ins).2 hb fd mask
+
+/-! ## no failure -/
+
+/-- **no_ctl_failure**: after every history, under either back-end, with or without F21, whatever the
+kernel reports: no `epoll_ctl` failed (`EEXIST`/`ENOENT`), nothing was logged by `LOG_SYSERR`/`LOG_SYSFATAL` -/
+theorem no_ctl_failure (be : Backend) (ins : List In) :
+    ∀ e ∈ (reach be ins).out, e ≠ .syserr ∧ e ≠ .fatal ∧
+      ∀ op c mask res, e = .ctl op c mask res → res = .ok := by
+  intro e he
+  have h := (noCtlFail_run be ins).2 e he
+  refine ⟨?_, ?_, ?_⟩
+  · rintro rfl; simp [Ev.isCtlFailure] at h
+  · rintro rfl; simp [Ev.isCtlFailure] at h
+  · rintro op c mask res rfl
+    cases res <;> simp_all [Ev.isCtlFailure]
+
+/-- on a poll loop no assertion fails and the process stays alive, for every history without F21 -/
+theorem no_abort_poll_partial (ins : List In) (hb : (reach .poll ins).blind = false) :
+    (reach .poll ins).dead = false ∧ ∀ e ∈ (reach .poll ins).out, e.isFatal = false :=
+  ⟨((pollGood_run ins).2 hb).1, aliveClean_run .poll ins ((pollGood_run ins).2 hb).1⟩
+
+/-- F21 (blind-abort): removing a channel that was registered without interest fails
+`assert(pfd.fd == -channel->fd()-1 …)` in `PollPoller::removeChannel` -/
+theorem no_abort_poll_false : ¬ ∀ ins : List In, (reach .poll ins).dead = false := by
+  intro h
+  exact absurd (h [.op 2 .disableAll, .op 2 .remove]) (by decide)
+
+/-- on an epoll loop no assertion fails and the process stays alive for every history — F21 included —
+provided the kernel behaves (`epEnvOk`: `epoll_wait` returns what it says, no more than the array holds,
+only descriptors of the interest list) -/
+theorem no_abort_epoll (ins : List In) (henv : Along epEnvOk (init .epoll) ins) :
+    (reach .epoll ins).dead = false ∧ ∀ e ∈ (reach .epoll ins).out, e.isFatal = false :=
+  ⟨(epAlive_run ins henv).2, aliveClean_run .epoll ins (epAlive_run ins henv).2⟩
+
+/-! ## bookkeeping invariants -/
+
+/-- **index_inv** (poll): every registered channel's `index_` names its own `pollfds_` entry —
+`(fd, events)`, the descriptor negated (`-fd-1`) exactly when there is no interest —, `channels_` maps
+its descriptor to it; indices of registered channels are distinct; every entry is owned; an
+unregistered channel has no slot.  Holds after every history, i.e. for every removal order
+(swap-with-last) and every re-registration -/
+theorem index_inv (ins : List In) (hb : (reach .poll ins).blind = false) :
+    let s := reach .poll ins
+    (∀ c, (s.chans c).added = true →
+      0 ≤ (s.chans c).index ∧ s.cmap (fdOf c) = some c ∧
+        s.pollfds[(s.chans c).index.toNat]? =
+          some (if (s.chans c).events = 0 then pollIgnoreFd (fdOf c) else fdOf c, (s.chans c).events)) ∧
+    (∀ c d, (s.chans c).added = true → (s.chans d).added = true → (s.chans c).index = (s.chans d).index → c = d) ∧
+    (∀ i, i < s.pollfds.length → ∃ c, (s.chans c).added = true ∧ (s.chans c).index = (i : Int)) ∧
+    (∀ c, (s.chans c).added = false → (s.chans c).index < 0 ∧ s.cmap (fdOf c) = none) := by
+  have h := ((pollGood_run ins).2 hb).2
+  exact ⟨h.reg, fun c d hc hd hi => h.idx_inj hc hd hi, h.cover, fun c hc => ⟨(h.unreg c hc).1, (h.unreg c hc).2.2⟩⟩
+
+/-- the slot-state machine of `EPollPoller` (every history, F21 included): a registered channel is in
+`channels_` and either *added* with its interest word in the kernel, or *deleted*, without interest and
+unknown to the kernel; an unregistered channel is *new*, not in `channels_`, unknown to the kernel.
+An *added* channel without interest exists only after F21 -/
+theorem slot_inv_epoll (ins : List In) :
+    let s := reach .epoll ins
+    ∀ c, if (s.chans c).added = true then
+        s.cmap (fdOf c) = some c ∧
+          (((s.chans c).index = kAdded ∧ s.kernel (fdOf c) = some (s.chans c).events ∧
+              ((s.chans c).events = 0 → s.blind = true)) ∨
+           ((s.chans c).index = kDeleted ∧ (s.chans c).events = 0 ∧ s.kernel (fdOf c) = none))
+      else (s.chans c).index = kNew ∧ (s.chans c).events = 0 ∧ s.cmap (fdOf c) = none ∧
+        s.kernel (fdOf c) = none :=
+  fun c => (epGood_run ins).2.loc c
+
+/-! ## dispatch -/
+
+/-- **dispatch_sound**: under either back-end, after every history: a read/write/close/error callback
+ran only with the matching `revents` bits (`disp`: the masks of `Channel::handleEventWithGuard`) and
+only if the channel subscribed to that kind (`subscribed`: the generated `guard*` re-tests) with the
+interest word it had *at the moment of the call* — `histEvents c pre` replays the operations recorded
+in the trace before the call, including those executed by earlier callbacks of the same batch -/
+theorem dispatch_sound (be : Backend) (ins : List In) {pre post : List Ev} {c : Nat} {k : Kind} {rev ev : Nat}
+    (ho : (reach be ins).out = pre ++ .cb c k rev ev :: post) :
+    disp k rev ∧ subscribed k ev ∧ ev = histEvents c pre :=
+  let h := (traceInv_run be ins).cb_split ho
+  ⟨h.1, h.2.1, h.2.2.1⟩
+
+/-- the callback's `revents` are the kernel's answer of *this* iteration: in every iteration from a
+reachable state the loop calls only channels of the active list the poller returned, each with
+`revents = lookupRev ready c`, the value reported for it (poll loop; histories without F21) -/
+theorem dispatch_reported_poll (ins : List In) (hb : (reach .poll ins).blind = false) (ready nret) :
+    ∃ l, (iter (reach .poll ins) ready nret).out = (pollerPoll (reach .poll ins) ready nret).1.out ++ l ∧
+      ∀ c k rev ev, Ev.cb c k rev ev ∈ l →
+        c ∈ (pollerPoll (reach .poll ins) ready nret).2 ∧ rev = lookupRev ready c := by
+  obtain ⟨hd, hs⟩ := (pollGood_run ins).2 hb
+  obtain ⟨l, h1, h2⟩ := iter_reported (reach .poll ins) hd ready nret
+  refine ⟨l, h1, fun c k rev ev hm => ?_⟩
+  obtain ⟨hc, hr⟩ := h2 c k rev ev hm
+  exact ⟨hc, hr.trans (poll_reported (pollGood_run ins).1 hs ready nret c hc)⟩
+
+/-- the same under epoll, for a well-behaved kernel that reports a descriptor at most once -/
+theorem dispatch_reported_epoll (ins : List In) (henv : Along epEnvOk (init .epoll) ins) (ready nret)
+    (he : epEnvOk (reach .epoll ins) (.iter ready nret)) (hnd : (ready.map (·.1)).Nodup) :
+    ∃ l, (iter (reach .epoll ins) ready nret).out = (pollerPoll (reach .epoll ins) ready nret).1.out ++ l ∧
+      ∀ c k rev ev, Ev.cb c k rev ev ∈ l → c ∈ ready.map (·.1) ∧ rev = lookupRev ready c := by
+  obtain ⟨hg, hd⟩ := epAlive_run ins henv
+  obtain ⟨l, h1, h2⟩ := iter_reported (reach .epoll ins) hd ready nret
+  refine ⟨l, h1, fun c k rev ev hm => ?_⟩
+  obtain ⟨hc, hr⟩ := h2 c k rev ev hm
+  obtain ⟨e1, e2⟩ := epoll_reported hg.1 hg.2 ready nret he hnd c hc
+  exact ⟨e2, hr.trans e1⟩
+
+/-- **removed_never_called**: a callback runs only on a channel that is registered according to the
+operations executed before the call -/
+theorem called_is_registered (be : Backend) (ins : List In) {pre post : List Ev} {c : Nat} {k : Kind}
+    {rev ev : Nat} (ho : (reach be ins).out = pre ++ .cb c k rev ev :: post) : histAdded c pre = true :=
+  ((traceInv_run be ins).cb_split ho).2.2.2
+
+/-- … in particular: between the execution of `remove(c)` and a later callback of `c` there is an
+`enable*/disable*` on `c` that registered it again -/
+theorem removed_never_called (be : Backend) (ins : List In) {pre mid post : List Ev} {c : Nat} {e0 : Nat}
+    {i0 : Int} {k : Kind} {rev ev : Nat}
+    (ho : (reach be ins).out = pre ++ .op c .remove e0 i0 :: (mid ++ .cb c k rev ev :: post)) :
+    ∃ k' e' i', Ev.op c k' e' i' ∈ mid ∧ k'.isUpdate = true :=
+  (traceInv_run be ins).removed_never_called ho
+
+/-- a channel with interest is registered; a callback needs interest (hang-up and error: any interest) -/
+theorem interest_registered (be : Backend) (ins : List In) (c : Nat) :
+    ((reach be ins).chans c).events ≠ 0 → ((reach be ins).chans c).added = true :=
+  (traceInv_run be ins).reg c
+
+/-! ## both back-ends -/
+
+/-- **same_callbacks**: the same history — operations between polls, operations scripted inside
+callbacks, iterations with the same kernel report — run on a poll loop and on an epoll loop produces
+the same observable trace (`absOut`: executed and rejected operations with the resulting interest word,
+and callbacks `(channel, kind, revents, interest)`, *in order*), provided no channel is registered
+without interest (F21), the kernel behaves, reports each descriptor once, and in every iteration both
+pollers hand the loop the same active list (`simEnvOk`: `epoll_wait` lists the descriptors in the order
+`PollPoller` scans them).  The final states agree on every channel's interest, `revents_` and registration -/
+theorem same_callbacks (ins : List In) (henv : Along2 simEnvOk (init .poll) (init .epoll) ins)
+    (hb : (reach .poll ins).blind = false) :
+    absOut (reach .poll ins).out = absOut (reach .epoll ins).out ∧ AbsEq (reach .poll ins) (reach .epoll ins) :=
+  let h := sim_run ins _ _ sim_init henv hb
+  ⟨h.out, h.abs⟩
+
+/-- **same_watch**: … and then both back-ends ask the kernel to watch the same descriptor → mask map -/
+theorem same_watch (ins : List In) (henv : Along2 simEnvOk (init .poll) (init .epoll) ins)
+    (hb : (reach .poll ins).blind = false) (fd : Int) (mask : Nat) :
+    watched (reach .poll ins) fd mask ↔ watched (reach .epoll ins) fd mask := by
+  have h := (same_callbacks ins henv hb).2
+  rw [refine_poll_partial ins hb, refine_epoll_partial ins (h.blind ▸ hb)]
+  unfold specWatched
+  constructor
+  · rintro ⟨c, h1, h2, h3, h4⟩
+    exact ⟨c, h1, (h.added c) ▸ h2, (h.ev c) ▸ h3, h4⟩
+  · rintro ⟨c, h1, h2, h3, h4⟩
+    exact ⟨c, h1, (h.added c).symm ▸ h2, (h.ev c).symm ▸ h3, h4⟩
+
+/-! ## idle -/
+
 /-- `poll` is never given a zero time-out -/
 theorem poll_timeout_pos : 0 < kPollTimeMs := by decide
+
+/-- **idle_blocks** (as far as the model expresses it): every `poll`/`epoll_wait` of every history is
+called with the constant time-out `kPollTimeMs > 0`; an iteration in which the kernel reports nothing
+runs no callback and changes nothing but the iteration counter -/
+theorem idle_blocks (be : Backend) (ins : List In) :
+    (∀ sz t, Ev.wait sz t ∈ (reach be ins).out → t = kPollTimeMs ∧ 0 < t) ∧
+    ((reach be ins).dead = false → ∃ sz, iter (reach be ins) [] 0 = { reach be ins with
+      out := (reach be ins).out ++ [.wait sz kPollTimeMs]
+      iteration := (reach be ins).iteration + 1
+      active := []
+      handling := false
+      cur := none }) :=
+  ⟨fun sz t h => ⟨waitInv_run be ins sz t h, (waitInv_run be ins sz t h) ▸ poll_timeout_pos⟩,
+    fun hd => iter_idle _ hd⟩
+
+/-- … and the kernel is given no reason to report a channel nobody is interested in: without F21
+every watched descriptor has a non-empty mask, the interest of a registered channel -/
+theorem idle_blocks_partial (be : Backend) (ins : List In) (hb : (reach be ins).blind = false)
+    (fd : Int) (mask : Nat) (hw : watched (reach be ins) fd mask) :
+    mask ≠ 0 ∧ ∃ c, fd = fdOf c ∧ ((reach be ins).chans c).added = true ∧ ((reach be ins).chans c).events = mask := by
+  have h : specWatched (reach be ins) fd mask := by
+    cases be
+    · exact (refine_epoll_partial ins hb fd mask).1 hw
+    · exact (refine_poll_partial ins hb fd mask).1 hw
+  obtain ⟨c, h1, h2, h3, h4⟩ := h
+  exact ⟨h4, c, h1, h2, h3⟩
+
+/-- F21 (blind-spin): with a blind registration the kernel watches a descriptor with an empty mask — it
+reports hang-up/error for it in every iteration, no callback runs, the loop cannot block -/
+theorem idle_blocks_false :
+    ¬ ∀ (be : Backend) (ins : List In) (fd : Int) (mask : Nat), watched (reach be ins) fd mask → mask ≠ 0 := by
+  intro h
+  exact h .epoll [.op 2 .disableAll] 2 0 (by decide) rfl
+
+/-! ## the hypotheses are satisfiable, the conclusions not vacuous -/
+
+example : Along2 simEnvOk (init .poll) (init .epoll) sampleHistory ∧ (reach .poll sampleHistory).blind = false ∧
+    Along epEnvOk (init .epoll) sampleHistory := by decide
+
+/-- what both back-ends did on `sampleHistory` (two user channels, an operation inside a callback that
+disables the *next* channel of the same batch — the F6 situation —, a removal and a re-registration):
+channel 2 read; its callback disabled channel 3, which was *not* called although the kernel had reported
+it; after re-registration channel 2 read (hang-up with `POLLIN`: no close callback) and channel 3 wrote -/
+example : absOut (reach .poll sampleHistory).out =
+    [.op 2 .enableR 3 0, .op 3 .enableR 3 0, .op 3 .enableW 7 0, .cb 2 .read 1 3, .op 3 .disableAll 0 0,
+     .op 3 .remove 0 0, .cb 2 .read 1 3, .op 3 .enableW 4 0, .cb 2 .read 17 3, .cb 3 .write 4 4] := by decide
 
 end MuduoVerif.C09
